@@ -69,6 +69,15 @@ def run(rep: common.Report, tier: str, seed: int, replay=None) -> int:
                           {**case, "max_rel": float(np.max(np.abs(Bv - ref)) / sc)})
         if np.max(np.abs(Bz - Bv[:, 2])) > 1e-9 * sc:
             rep.violation("scalar mode differs from the z component of vector mode", case)
+        if ci % 3 == 0:
+            # the same numbers as plain Python lists / scalars
+            try:
+                Bl = biot_savart_2d(ev[:, 0].tolist(), ev[:, 1].tolist(), ev[:, 2].tolist(), current_densities=J.tolist(), vector=True,
+                                    positions=pos.tolist(), z0=float(z0), areas=areas.tolist(), length_units=lu, current_units=cu).to("tesla").magnitude
+                if np.max(np.abs(np.asarray(Bl) - Bv)) > 1e-12 * sc:
+                    rep.violation("biot_savart_2d given Python lists differs from the same call with arrays", case)
+            except (TypeError, AttributeError) as e:
+                rep.coverage["list_inputs_refused"] = f"{type(e).__name__}: {e}"[:100]      # lists not accepted: allowed
         al, be = rng.uniform(-2, 2), rng.uniform(-2, 2)
         Bc = biot_savart_2d(ev[:, 0], ev[:, 1], ev[:, 2], current_densities=al * J + be * J2, vector=True, **kw).to("tesla").magnitude
         B2 = biot_savart_2d(ev[:, 0], ev[:, 1], ev[:, 2], current_densities=J2, vector=True, **kw).to("tesla").magnitude
